@@ -668,7 +668,7 @@ class Abstractor:
         s.memo = {}
         s.atoms = {}
         s.timeout = timeout
-        s.budget = float(os.environ.get('VERIF_ABS_BUDGET_S', '90'))
+        s.budget = float(os.environ.get('VERIF_ABS_BUDGET_S', '150'))
         s.queries = 0
         s.qtime = 0.0
         s.side = []
